@@ -32,7 +32,9 @@ func (d *Data) getHiresChanges(hires downres.BlockMap) (octantMap, error) {
 		downresY := hresCoord[1] >> 1
 		downresZ := hresCoord[2] >> 1
 		loresZYX := dvid.ChunkPoint3d{downresX, downresY, downresZ}.ToIZYXString()
-		octidx := ((hresCoord[2] % 2) << 2) + ((hresCoord[1] % 2) << 1) + (hresCoord[0] % 2)
+		// & 1, not % 2: Go's % truncates toward zero, so a negative odd coordinate would give -1
+		// and a negative octant index; c & 1 is the bit that goes with the floor of c >> 1.
+		octidx := ((hresCoord[2] & 1) << 2) + ((hresCoord[1] & 1) << 1) + (hresCoord[0] & 1)
 		oct, found := octants[loresZYX]
 		if !found {
 			oct = [8]*labels.Block{}
